@@ -5,8 +5,9 @@ declarations, assignments, calls) and printed as a list of lines (depth, kind, o
 makes the result independent of
   * whitespace, comments, `(void) x;` statements, redundant braces around single statements, redundant outer parentheses,
   * names of parameters (p0, p1, ..) and locals ($0, $1, .. in order of first definition),
-  * pure single-assignment locals (`len = janet_v_count(args)`, `c = opts.compiler`, `int d = janetc_sequal(t, args[2])`): they are
-    substituted into their uses, so introducing / removing / renaming / moving such a helper variable changes nothing,
+  * pure single-assignment locals (`len = janet_v_count(args)`, `c = opts.compiler`, `int d = janetc_sequal(t, args[2])`; the expression
+    may mention parameters and other locals that are assigned exactly once): they are substituted into their uses, so introducing /
+    removing / renaming / moving such a helper variable changes nothing,
   * declarations without initialiser.
 What is left is the control structure with its conditions and - in order - every emit call (kind, opcode, operands, write flag),
 every other call with an effect, every assignment to state.  Lean compares that list with the one the Lean model of the function
@@ -289,8 +290,8 @@ class Skel:
                 return False
             if t in MUTABLE_STATE or t in ASSIGN or t in ("++", "--"):
                 return False
-            if t in self.locals and t not in self.subst:
-                return False
+            if t in self.locals and t not in self.subst and (self.locals[t] != 1 or t in self.addr_taken):
+                return False            # mentions a local that is assigned more than once / through a pointer
         return True
 
     def expr(self, e):
